@@ -8,6 +8,7 @@ from collections.abc import Callable, Mapping
 from dataclasses import dataclass, field
 from typing import Any, cast
 
+from ..exceptions import FailedSemantics
 from ..util import (
     Config,
     Constructor,
@@ -304,4 +305,11 @@ class ModelBuilderSemantics:
         known = {'ast': ast, 'exp': ast}
         # note: not through _instanceof(): a keyword parameter called
         #   'base' would be taken for its own
-        return boundcall(constructor, known, ast, *args[1:], **kwargs)
+        try:
+            return boundcall(constructor, known, ast, *args[1:], **kwargs)
+        except (ValueError, TypeError) as e:
+            if constructor is not vars(builtins).get(typename):
+                raise
+            # note: a builtin type (number::int) rejected the text the
+            #   rule matched: a failure of the input, not of the caller
+            raise FailedSemantics(f'{typename}: {e}') from e
